@@ -148,6 +148,40 @@ def main():
             det = {p: [r["exit"] for r in rs] for p, rs in res.get("checks", {}).items()}
             rows.append((name, res.get("apply"), res.get("suite"), res.get("demo_patched_rc"), det))
             print(name, res.get("apply"), res.get("suite"), "demo", res.get("demo_patched_rc"), det, flush=True)
+    elif cmd == "regress":
+        # fast regression: every kept fault, the check of the property it breaks (falling back to the other listed checks
+        # only if that one is silent), seed 0, quick tier; no suite / demo re-run.  Prints MISSED lines; exit 1 if any.
+        only = sys.argv[2] if len(sys.argv) > 2 else ""
+        missed = []
+        n = 0
+        for name in sorted(os.listdir(os.path.join(HERE, "seeded"))):
+            d = os.path.join(HERE, "seeded", name)
+            if not os.path.exists(os.path.join(d, "meta.json")) or not name.startswith(only):
+                continue
+            meta = json.load(open(os.path.join(d, "meta.json")))
+            make_wt()
+            try:
+                r = sh(f"git -C {WT} apply {os.path.join(d, 'patch.diff')}")
+                if r.returncode != 0:
+                    r = sh(f"git -C {WT} apply -3 {os.path.join(d, 'patch.diff')}")
+                    if r.returncode != 0 or "with conflicts" in (r.stdout + r.stderr):
+                        print(name, "APPLY-FAILED", flush=True)
+                        missed.append(name)
+                        continue
+                hit = None
+                for pid in meta["checked_with"]:
+                    rc, lines, last = run_check(pid, 0)
+                    if rc == 1 and any("VIOLATION" in l for l in lines):
+                        hit = pid
+                        break
+                n += 1
+                print(name, "detected by " + hit if hit else "MISSED", flush=True)
+                if not hit:
+                    missed.append(name)
+            finally:
+                drop_wt()
+        print(f"{n} faults, {len(missed)} missed: {missed}")
+        sys.exit(1 if missed else 0)
     else:
         print(__doc__)
 
